@@ -96,6 +96,9 @@ type Property struct {
 	QuickWall, ThoroughWall time.Duration
 	// Enumerate, if set, yields the plans of a finite space instead of Gen.
 	Enumerate func(tier string, seed uint64) []*Plan
+	// MaxWorkers / WorkerProcs bound the fan-out for expensive rigs whose
+	// generators parallelise internally (0 = default 16 x GOMAXPROCS 1).
+	MaxWorkers, WorkerProcs int
 }
 
 var registry = map[string]*Property{}
@@ -542,6 +545,13 @@ func Check(prop *Property, tier string, seed uint64, workers int, verifDir strin
 		fmt.Fprintln(os.Stderr, err)
 		return 2
 	}
+	if prop.MaxWorkers > 0 && workers > prop.MaxWorkers {
+		workers = prop.MaxWorkers
+	}
+	procs := 1
+	if prop.WorkerProcs > 0 {
+		procs = prop.WorkerProcs
+	}
 	start := time.Now()
 	var mu sync.Mutex
 	var records []*RunRecord
@@ -558,7 +568,7 @@ func Check(prop *Property, tier string, seed uint64, workers int, verifDir strin
 			var eb strings.Builder
 			cmd.Stderr = &eb
 			defer func() { stderrs[i] = eb.String() }()
-			cmd.Env = append(os.Environ(), "GOMAXPROCS=1")
+			cmd.Env = append(os.Environ(), fmt.Sprintf("GOMAXPROCS=%d", procs))
 			stdout, err := cmd.StdoutPipe()
 			if err != nil {
 				codes[i] = 2
